@@ -200,6 +200,18 @@ func makeCachable(w http.ResponseWriter, p string, fi os.FileInfo, cachable bool
 	w.Header().Set("Cache-Control", cc)
 }
 
+// hasDotDot returns true if a slash-separated path has a ".." element.
+// The server's mux does not clean escaped dots (%2e%2e), and os.Root in
+// some versions of Go mishandles paths such as "dir/.." or "../".
+func hasDotDot(p string) bool {
+	for _, e := range strings.Split(p, "/") {
+		if e == ".." {
+			return true
+		}
+	}
+	return false
+}
+
 // fileHandler is our custom reimplementation of http.FileServer
 type fileHandler struct {
 	root *os.Root
@@ -221,6 +233,11 @@ func (fh *fileHandler) ServeHTTP(w http.ResponseWriter, r *http.Request) {
 		p = "."
 	} else {
 		p = r.URL.Path[1:]
+	}
+
+	if hasDotDot(p) {
+		notFound(w)
+		return
 	}
 
 	f, err := fh.root.Open(p)
@@ -608,6 +625,12 @@ func recordingsHandler(w http.ResponseWriter, r *http.Request) {
 
 	if filepath.Separator != '/' &&
 		strings.ContainsRune(p, filepath.Separator) {
+		http.Error(w, "Bad character in filename",
+			http.StatusBadRequest)
+		return
+	}
+
+	if hasDotDot(p) {
 		http.Error(w, "Bad character in filename",
 			http.StatusBadRequest)
 		return
